@@ -23,7 +23,7 @@ open DC.Check (St)
 /-- the calls covered inside a block -/
 def Op.inBlock : Op → Bool
   | .set .. | .add .. | .touch .. | .incr .. | .get .. | .contains .. | .pop .. | .delitem .. | .delete ..
-  | .push .. | .pull .. | .peek .. | .peekitem ..
+  | .push .. | .pull .. | .peek .. | .peekitem .. | .clear | .evict .. | .expire .. | .cull ..
   | .iter .. | .iterkeys .. | .len | .stats .. | .observe .. => true
   | _ => false
 
@@ -62,6 +62,10 @@ theorem step_BI {x : Cache} (hd : 0 < x.depth) (op : Op) (hin : op.inBlock = tru
   · exact (pull_BG hd h _ _ _ _ _ _).bi
   · exact (peek_BG hd h _ _ _ _ _ _).bi
   · exact (peekitem_BG hd h _ _ _ _ _).bi
+  · exact (clear_BG hd h).bi
+  · exact (evict_BG hd h _).bi
+  · exact (expire_BG hd h _).bi
+  · exact (cull_BG hd h _).bi
   · exact iter_BI h _ _
   · exact iterkeys_BI h _ _
   · exact len_BI h
@@ -85,6 +89,10 @@ theorem step_grow {x : Cache} (hd : 0 < x.depth) (op : Op) (hin : op.inBlock = t
   · exact pull_grow hd _ _ _ _ _ _
   · exact peek_grow hd _ _ _ _ _ _
   · exact peekitem_grow hd _ _ _ _ _
+  · exact clear_grow hd
+  · exact evict_grow hd _
+  · exact expire_grow hd _
+  · exact cull_grow hd _
   · exact Grow.of_core (iter_core x _ _)
   · exact Grow.of_core (iterkeys_core x _ _)
   · exact Grow.of_core rfl
@@ -416,6 +424,26 @@ theorem exSegsAddPush_final :
     (({ cfg := exCfg } : Cache).run (histOps exSegsAddPush)).files.map (·.1) = [0, 1, 3] ∧
     Good (({ cfg := exCfg } : Cache).run (histOps exSegsAddPush)) :=
   ⟨by decide +kernel, by decide +kernel, hist_good _ (good_init _ _) _ exSegsAddPush_quiet⟩
+
+/-- the bulk removals inside blocks: a committed block clears the cache (both value files go at
+the commit); an aborted block evicts, expires and culls (everything rolled back) -/
+def exSegsBulk : List Seg :=
+  [.call (.set exE6 0 (.str [97]) (.bytes [1, 2, 3]) none false .null),
+   .call (.set exE6 0 (.str [98]) (.bytes [4, 5, 6, 7]) (some 1) false .null),
+   .commit [.clear],
+   .call (.set exE6 5 (.str [99]) (.bytes [7, 7]) (some 1) false .null),
+   .abort [.evict .null, .expire 10, .cull 10] 1]
+
+theorem exSegsBulk_quiet : QuietHist ({ cfg := exCfg } : Cache) exSegsBulk := by
+  refine ⟨rfl, rfl, ⟨by decide, ?_⟩, rfl, ⟨by decide, by decide, ?_⟩, trivial⟩
+  · unfold NoLeak; decide +kernel
+  · unfold Registered; decide +kernel
+
+theorem exSegsBulk_final :
+    (({ cfg := exCfg } : Cache).run (histOps exSegsBulk)).rows.map crow = [⟨1, 2, some 2⟩] ∧
+    (({ cfg := exCfg } : Cache).run (histOps exSegsBulk)).files.map (·.1) = [2] ∧
+    Good (({ cfg := exCfg } : Cache).run (histOps exSegsBulk)) :=
+  ⟨by decide +kernel, by decide +kernel, hist_good _ (good_init _ _) _ exSegsBulk_quiet⟩
 
 /-! ### the full statement is false: two leaks -/
 
